@@ -108,6 +108,21 @@ CLAIMED = {
         "Trusted: Lean kernel; sqlite statement atomicity; no partial writes; fault enumeration covers the payload shapes listed in the evidence.",
         "DESIGN.md section 5, C09",
     ),
+    "C18": (
+        "Lean 4 theorem sh_roundtrip (POSIX sh/printf evaluator specification over the exporter model, every byte string and comment) + differential correspondence + the generated scripts run by real dash/bash",
+        "Theorems in lean/Tup/Props/C18.lean: Spec.Sh.eval (writeToShellscript data comment) = some data for every byte string and newline-free "
+        "comment; comment_irrelevant; no_quote_in_format. The script text is compared with the real exporter and the script is executed by dash "
+        "(bash in thorough) and compared with the data; Spec.Sh itself is validated against the shells on every executed case.",
+        "Trusted: Lean kernel; Spec.Sh as a transcription of POSIX printf/sh (validated against dash and bash); base64(1).",
+        "DESIGN.md section 5, C18",
+    ),
+    "C19": (
+        "Lean 4 theorems (response_roundtrip, multiple_in_order, truncated_invalid, cpr_roundtrip) over a model of the read loops + differential correspondence on a real pty",
+        "Theorems in lean/Tup/Props/C19.lean for every well-formed response, noise and remaining input; the real receive_response / "
+        "receive_multiple_responses / get_cursor_position read scripted byte streams from a pty and are compared field by field with the model and the specification.",
+        "PARTIAL: deadlines are modelled as end of input; select/time behaviour at the deadline is not modelled.",
+        "DESIGN.md section 5, C19",
+    ),
 }
 
 NOT_YET = "check not built yet in this round (work in progress; see DESIGN.md section 9 for the build order)"
